@@ -65,6 +65,10 @@ func init() {
 	register("C02", func(args []string) int {
 		run := evid.NewRun("C02", "model_checking")
 		runGossip(run, "C02", stateJobs(!run.Thorough()))
+		// "never loses": the view of an owner that is alive and heard from
+		// survives suspicion, recovery and the expiry sweeps (real detector on a
+		// harness clock, every event sequence of the stated depth)
+		c11DetectorLoop(run, "C02")
 		run.Assume("alphabet: keys {a,b}, values {1,2}, 2-3 nodes; bounds per scenario in coverage.scenarios")
 		return run.Finish()
 	})
